@@ -561,9 +561,13 @@ class ResourceScenario(ScenarioData):
         # Working hours are defined in local time, but slots are in UTC
         resource_tz = self.property.get("timezone", self.scenarioIdx)
 
-        # Check if resource has a shift reference
+        # Check if resource has a shift reference. Hours that the resource states itself replace
+        # a shift that is only handed down by its group (the two forms are separate attributes)
         shift = self.property.get("shifts", self.scenarioIdx)
-        if shift:
+        if shift and (
+            self.property.provided("shifts", self.scenarioIdx)
+            or not self.property.provided("workinghours", self.scenarioIdx)
+        ):
             # Use the shift's working hours
             shift_wh = shift.get("workinghours", self.scenarioIdx)
             if shift_wh and hasattr(shift_wh, "onShift"):
